@@ -4,7 +4,15 @@ from harness import gen_tables
 SIZES = {'TlsSessionIdVector': [1], 'TlsRenegotiatedConnection': [1], 'TlsClientCertificateTypeVector': [1],
          'TlsCipherSuiteVector': [2], 'TlsEllipticCurveVector': [2], 'TlsCompressionMethodVector': [1],
          'TlsCertificateStatusRequestResponderIdList': [3, 4, 5, 9, 40, 300, 3000], 'SshKexAlgorithmVector': [1, 2, 3, 7, 30],
-         'TlsDistinguishedNameVector': [3, 4, 6, 11, 50, 700, 5000]}
+         'TlsDistinguishedNameVector': [3, 4, 6, 11, 50, 700, 5000], 'TlsProtocolNameList': [3, 4, 5, 6, 7, 9, 10, 12, 19]}
+
+
+# classes whose items are enum members: the number of distinct members per encoded size (tags beyond it would alias)
+TAGS = {'TlsProtocolNameList': {3: 1, 4: 2, 5: 3, 6: 3, 7: 4, 9: 5, 10: 1, 12: 3, 19: 1}}
+
+
+def rnd_tag(rng, cls, size):
+    return rng.randrange(TAGS[cls][size]) if cls in TAGS else rng.randrange(24)
 
 
 def fill(rng, cls, total):
@@ -15,14 +23,15 @@ def fill(rng, cls, total):
     while left >= sizes[-1]:
         fit = [s for s in sizes if s <= left]
         s = fit[0] if rng.random() < 0.7 else rng.choice(fit)
-        out.append('%d:%d' % (rng.randrange(24), s))
+        out.append('%d:%d' % (rnd_tag(rng, cls, s), s))
         left -= s
     rng.shuffle(out)
     return out
 
 
 def rnd_item(rng, cls):
-    return '%d:%d' % (rng.randrange(24), rng.choice(SIZES[cls]))
+    size = rng.choice(SIZES[cls])
+    return '%d:%d' % (rnd_tag(rng, cls, size), size)
 
 
 def rnd_items(rng, cls, n):
